@@ -76,6 +76,7 @@ def run(tier):
     res = Result("C02", tier, "model_checking")
     res.assumptions = ["leaves (value checks) are taken as recorded; the harness projection of EventRecord JSON to nodes is trusted"]
     cnf_family(res, tier)
+    core.block_family(res, tier)
     explain(res, tier)
     res.cov["rule"] = ("CNF family: every shape up to 3 lines x 3 alternatives with leaves forced to PASS/FAIL/SKIP in the 7 "
                        "combination contexts (TLC checks the combination law on the spec, harness compares the serialised record); "
